@@ -970,7 +970,7 @@ def run_tset(case):
         if (expect_bad is not None) != (code == 1):
             ok = False
             msgs.append(f"no error although {expect_bad}" if expect_bad else f"raised {err!r} although every row can be normalised")
-        if code == 2:
+        if code == 2 and not near:
             ok = False
             msgs.append(f"IndexError {err!r}")
     if code == 0 and not near:
@@ -1005,6 +1005,10 @@ def run_tset(case):
         tags.append("F-G")
     if near:
         tags.append("near_boundary_skipped")
+    if near and code == 2:
+        # float rounding, outside the exact-arithmetic property: the last cumulative bin of a non-dyadic row can round below
+        # 1, and the largest draw 1 - 2^-53 then indexes past the last option (DESIGN section 7, the float relative of F-G)
+        tags.append("float_corner_indexerror")
     if any(t["trigger"] for t in case["trans"]):
         tags.append("triggered")
     return Result(ok=ok, msg="; ".join(msgs + fg_msgs), coq=coq, key=case if labels else None,
